@@ -9,10 +9,11 @@ and compared with its first snapshot and with `FmtStr(*f.chunks)`.  Observation 
 `f.s`, `f.width`, `chunk.color_str`) are ordinary steps placed at random positions, so caches are filled
 before and after aliasing happens.
 
-Tie: the same program goes to the Lean heap model (one request line).  Two levels (notes/AGENT_GUIDE.md):
-  C13/programs (property level, programs inside the quantifier): per step the result (a terminal string by what it
-    DISPLAYS, a guard by the fact that it raised) and for every pool value its per-character formatting (hence text),
-    length, width or its exception kind, and the display of its terminal string - what the frame/cache theorems speak about;
+Tie: the same program goes to the Lean heap model.  Two levels (notes/AGENT_GUIDE.md):
+  C13/steps (property level; every step inside the quantifier, the model starting from literal copies of the real pool
+    before the step): the result (a terminal string by what it DISPLAYS, a guard by the fact that it raised, a raising
+    operation as "raised") and for every pool value after the step its per-character formatting (hence text), length,
+    width, and the display of its terminal string - what the frame/cache theorems speak about;
   C13/programs-representation (representation level, all programs incl. slice steps): additionally object identity of
     FmtStr / run list / run / attribute-dict objects (renumbered by first appearance), run layout, which memo slots are
     filled, exact bytes of str(), guard exception kinds, the truth value of ==.
@@ -217,41 +218,53 @@ class _Interrupt(BaseException):
     """private exception of the fault injector (a BaseException, like KeyboardInterrupt)"""
 
 
-PER_RUN = {"str": "__str__", "len": "__len__", "s": "s", "width": "width"}
+# per-run accessors an observation may go through, whichever the loop of the implementation calls: every one is hooked,
+# each with its own counter, and the interrupt lands at the k-th use of any of them
+PER_RUN = {"str": ("__str__", "color_str"), "len": ("__len__", "s"), "s": ("s",), "width": ("width", "s")}
+EQ_DIFFERS = [0]
+INJECT = {w: dict(steps=0, fired=0) for w in PER_RUN}       # coverage of the fault injector over the whole run
 
 
-def interrupted(fn, which, k):
-    """run fn() while the k-th call of the per-run method the observation uses (Chunk.__str__ / __len__ / .s / .width)
-    raises _Interrupt instead of running. -> (fired, result of fn when it was not interrupted).
-    Works for a plain method, a property and any other descriptor (cached_property); when the class has no such
-    attribute the observation simply runs uninterrupted."""
-    name = PER_RUN[which]
-    orig = Chunk.__dict__.get(name, MISSING)
-    if orig is MISSING:
-        MISSING_SLOTS.add("Chunk." + name)
-        return False, fn()
-    count = [0]
-
-    def hit():
-        count[0] += 1
-        if count[0] == k:
-            raise _Interrupt()
-
+def _hooked(orig, hit):
+    """the class attribute `orig` (plain method, property, cached_property or any other descriptor) with `hit()` run
+    before every use"""
     if isinstance(orig, property):
-        patched = property(lambda self: (hit(), orig.fget(self))[1])
-    elif callable(orig):
+        return property(lambda self: (hit(), orig.fget(self))[1])
+    if callable(orig):
         def patched(self):
             hit()
             return orig(self)
-    else:
-        patched = property(lambda self: (hit(), orig.__get__(self, type(self)))[1])
-    setattr(Chunk, name, patched)
+        return patched
+    return property(lambda self: (hit(), orig.__get__(self, type(self)))[1])
+
+
+def interrupted(fn, which, k):
+    """run fn() while the k-th use of a per-run accessor the observation goes through (Chunk.__str__ / .color_str /
+    __len__ / .s / .width) raises _Interrupt instead of running. -> (fired, result of fn when it was not interrupted).
+    Accessors the class does not have are skipped; with none left the observation simply runs uninterrupted."""
+    INJECT[which]["steps"] += 1
+    saved = {}
+    for name in PER_RUN[which]:
+        orig = Chunk.__dict__.get(name, MISSING)
+        if orig is MISSING:
+            MISSING_SLOTS.add("Chunk." + name)
+            continue
+        count = [0]
+
+        def hit(count=count):
+            count[0] += 1
+            if count[0] == k:
+                raise _Interrupt()
+        saved[name] = orig
+        setattr(Chunk, name, _hooked(orig, hit))
     try:
         return False, fn()
     except _Interrupt:
+        INJECT[which]["fired"] += 1
         return True, None
     finally:
-        setattr(Chunk, name, orig)
+        for name, orig in saved.items():
+            setattr(Chunk, name, orig)
 
 
 def open_gen(f, cols):
@@ -443,9 +456,12 @@ def run_program(case, collect=None):
     memo_filled = False
     stop = False
     gens = []
+    stats["pre"] = []                      # for every executed step: the runs of every pool value BEFORE the step
+    last_encs = []
     for i, d in enumerate(case["steps"]):
         if stop:
             break
+        stats["pre"].append(list(last_encs))
         toks, thunk = exec_step(d, pool, gens)
         if collect is not None:
             collect.append(toks)
@@ -474,7 +490,8 @@ def run_program(case, collect=None):
                 want = view_of_key(key_of(pool[d["a"]]))["str"] == (view_of_key(key_of(pool[d["other"][1]]))["str"]
                                                                      if d["other"][0] == "p" else d["other"][1])
                 if val != want:
-                    findings.append(("step %d: == returned %r, comparing fresh terminal strings gives %r" % (i, val, want), d))
+                    # which strings compare equal is C19's statement, not C13's: counted and noted, never a violation
+                    EQ_DIFFERS[0] += 1
             elif kind == "opaque":
                 res = "o"
             else:
@@ -533,6 +550,7 @@ def run_program(case, collect=None):
         if res == "returned":
             res = "r0"
         steps_out.append("%s %s # %s" % (res, dflag, " ".join(ents)))
+        last_encs = [e.split("!")[1] for e in ents]
         stats["ops"].append(d["op"])
     # final sweep through the public API: memoised == first snapshot == FmtStr(*f.chunks)
     for k, p in enumerate(pool):
@@ -605,6 +623,8 @@ def canon_prop(reply):
             res = ("T", disp(res[1:]))
         elif res.startswith("G:raised"):
             res = "G:raised"
+        elif res.startswith("E:"):
+            res = "raised"         # the property names no exception type: the exact kind is representation level
         elif res in ("b0", "b1"):
             # `==` is in the programs as an observation that renders both operands; which strings compare equal is
             # C19's subject (the oracle still checks the answer against the fresh terminal strings of the real code)
@@ -620,7 +640,7 @@ def canon_prop(reply):
                 cells = tuple(wire.cells_of_chunks(wire.dec_fmt(enc)))
             except Exception:  # noqa: BLE001 - an unencodable value is compared as it is
                 cells = enc
-            es.append((cells, ln, w, disp(rend)))
+            es.append((cells, ln, "raised" if w.startswith("E:") else w, disp(rend)))
         out.append((res, dflag, tuple(es)))
     return tuple(out)
 
@@ -928,6 +948,17 @@ def make_line(case):
     chars = set(stats["chars"])
     strings_in(case["steps"], chars)
     env = widthenv.env_fields("".join(sorted(chars)))
+    # one request per step for the property-level tie: the model starts from literal copies of the REAL pool before
+    # the step (same runs, same layout) and performs that one operation - so a drift of run layout between model and
+    # implementation in earlier steps cannot leak into the comparison of values
+    case["step_lines"] = []
+    for i, t in enumerate(toks):
+        d = case["steps"][i]
+        pre = stats["pre"][i] if i < len(stats["pre"]) else None
+        if pre is None or t == ["oracle-only"] or d.get("step") is not None or any(e.startswith("?") for e in pre):
+            case["step_lines"].append(None)        # outside the quantifier / outside the model
+        else:
+            case["step_lines"].append("heap1 %s / %s" % (env, " / ".join(["lit " + e for e in pre] + [" ".join(t)])))
     return "heap %s / %s" % (env, " / ".join(" ".join(t) for t in toks))
 
 
@@ -1016,16 +1047,22 @@ def check(ctx):
         stash[id(c)] = (findings, stats, reply)
         return reply
 
-    # property level: the observations C13 speaks about, on programs inside its quantifier - this is what transfers
-    # the frame/cache theorems (they are about values and "memo = fresh", not about identity or which memo is filled)
-    ctx.tie("C13/programs", [c for c in cases if inside_quantifier(c)], lambda c: c["line"], impl, canon_prop, canon_prop)
-    # representation level: everything stricter (object identity and aliasing of FmtStr / run list / run / attribute-dict
-    # objects, run layout, memo fill state, exact bytes of str, exception kinds of guards) and programs with slice steps
-    ctx.tie("C13/programs-representation", cases, lambda c: c["line"],
-            lambda c: run_program(c)[0] if id(c) not in stash else stash[id(c)][2], canon, canon, level="representation")
-    for c in cases:
-        if id(c) not in stash:
-            impl(c)
+    # representation level, whole programs through the model's own heap: object identity and aliasing of FmtStr / run
+    # list / run / attribute-dict objects, run layout, memo fill state, exact bytes of str, exception kinds, slice steps
+    ctx.tie("C13/programs-representation", cases, lambda c: c["line"], impl, canon, canon, level="representation")
+    # property level, step by step: the model performs each operation on literal copies of the REAL pool (same runs) and
+    # must agree on what C13 speaks about - the result (terminal strings by what they display, guards by raising,
+    # raising operations as "raised") and, for EVERY pool value after the step, per-character formatting, length, width,
+    # displayed terminal string.  This is what transfers the frame/cache theorems (they are about values and
+    # "memo = fresh", not about identity, run layout or which memo is filled); it is insensitive to layout drift.
+    budget = 6000 if ctx.thorough else len(cases)
+    step_cases = [(c, i) for c in cases[:budget] for i, l in enumerate(c.get("step_lines", [])) if l is not None]
+
+    def step_reply(ci):
+        c, i = ci
+        steps = stash[id(c)][2][3:].split(" / ")
+        return "ok " + steps[i] if i < len(steps) else "missing-step"
+    ctx.tie("C13/steps", step_cases, lambda ci: ci[0]["step_lines"][ci[1]], step_reply, canon_prop, canon_prop)
     for c in cases:
         findings, stats, _ = stash[id(c)]
         small = dict(kind=c["kind"], steps=c["steps"])
@@ -1043,6 +1080,19 @@ def check(ctx):
         for what, d in findings[:3]:
             ctx.violation(what, small, footprint(d, what) if d else None)
     ctx.exhaustive.append("oracle-only programs (splice with end < start, lazily consumed width_aware_splitlines): %d" % len(oracle_cases))
+    if EQ_DIFFERS[0]:
+        ctx.note("== answered differently from equality of the fresh terminal strings in %d steps (C19's subject, not judged here)"
+                 % EQ_DIFFERS[0])
+    ctx.note("fault injector: " + ", ".join("%s %d/%d fired" % (w, c["fired"], c["steps"]) for w, c in sorted(INJECT.items())))
+    dead = sorted(w for w, c in INJECT.items() if c["steps"] and not c["fired"])
+    if dead:
+        # the per-run hooks were never reached for these observations: the interrupted-observation coverage is lost
+        # (the implementation goes through an accessor the injector does not hook) - say so and deepen the exploration
+        ctx.note("COVERAGE LOST: interrupted observations of %s never fired although %s such steps were generated; "
+                 "escalating to the thorough bounds" % (dead, [INJECT[w]["steps"] for w in dead]))
+        if not ctx.thorough and not getattr(ctx, "in_search", False):
+            ctx.escalated = True
+            search(ctx)
     if MISSING_SLOTS:
         ctx.note("private attributes the implementation does not have (read only when present; the public accessors judge): %s"
                  % sorted(MISSING_SLOTS))
